@@ -172,6 +172,9 @@ func (r *Run) Pos(p token.Pos) string {
 func (r *Run) Ob(rule, construct string, pos token.Pos, ok bool, format string, a ...any) {
 	r.Obls = append(r.Obls, Obligation{Rule: rule, Construct: construct, Pos: r.Pos(pos), OK: ok, Detail: fmt.Sprintf(format, a...)})
 	r.Counts[rule]++
+	if t := os.Getenv("DAWGSVET_TRACE"); t != "" && strings.HasPrefix(rule, t) {
+		fmt.Fprintf(os.Stderr, "trace %v %s|%s @%s — %s\n", ok, rule, construct, r.Pos(pos), fmt.Sprintf(format, a...))
+	}
 }
 
 func (r *Run) Pass(rule, construct string, pos token.Pos, format string, a ...any) {
